@@ -38,4 +38,15 @@ theorem source_fs_mutations : CmGen.CliSrc.fs_mutations = ["open:w:output_path"]
 /-- … and the only file opened for reading is the input -/
 theorem source_fs_reads : CmGen.CliSrc.fs_reads = ["file_path"] := rfl
 
+/-- the report writer (`cli/html_report.py`) has one file-system mutation: it opens its `output_path` for writing -/
+theorem source_report_fs_mutations : CmGen.CliSrc.report_fs_mutations = ["open:w:output_path"] := rfl
+
+/-- … and `main` calls it with the fixed-pair list only, so that path is the documented default, a bare file name: the report
+    lands in the working directory -/
+theorem source_report_path : CmGen.CliSrc.report_calls = ["1 positional"] ∧
+    CmGen.CliSrc.report_default_path = "cm_colors_report.html" ∧
+    ¬ (CmGen.CliSrc.report_default_path.toList.contains '/') := by
+  refine ⟨rfl, rfl, ?_⟩
+  decide
+
 end CmProps.C09
